@@ -15,6 +15,8 @@ type field struct {
 	Off, Len int
 	Kind     string // e.g. "sec.size", "vec.count", "name.len", "idx.func", "imm.memarg.offset", ...
 	Signed   bool   // signed LEB (i32.const, i64.const, block type)
+	ByteImm  bool   // a single-byte immediate (reserved byte, lane index, reference type): not a LEB in the
+	// specification, so a padded encoding is a deviation like any other, not a must-accept re-encoding
 	Bits     int    // 32, 33 or 64
 	// for size fields: the extent [CS, CE) of the content they measure (original coordinates)
 	IsSize bool
@@ -44,6 +46,14 @@ func (w *walker) byte_() byte {
 	}
 	c := w.b[w.p]
 	w.p++
+	return c
+}
+
+// imm1 reads a single-byte immediate and records it as a field of its own.
+func (w *walker) imm1(kind string) byte {
+	start := w.p
+	c := w.byte_()
+	w.fields = append(w.fields, field{Off: start, Len: 1, Kind: kind, Bits: 32, ByteImm: true})
 	return c
 }
 
@@ -321,7 +331,9 @@ func (w *walker) instrs(untilEnd bool) {
 			w.uleb("imm.tableidx")
 		case op == 0x1c:
 			n := w.uleb("imm.select.count")
-			w.p += int(n)
+			for i := uint64(0); i < n; i++ {
+				w.imm1("imm.select.type")
+			}
 		case op >= 0x20 && op <= 0x22:
 			w.uleb("imm.localidx")
 		case op == 0x23 || op == 0x24:
@@ -332,7 +344,7 @@ func (w *walker) instrs(untilEnd bool) {
 			w.uleb("imm.memarg.align")
 			w.uleb("imm.memarg.offset")
 		case op == 0x3f || op == 0x40:
-			w.byte_()
+			w.imm1("imm.reserved.memidx")
 		case op == 0x41:
 			w.sleb("imm.i32", 32)
 		case op == 0x42:
@@ -342,7 +354,7 @@ func (w *walker) instrs(untilEnd bool) {
 		case op == 0x44:
 			w.p += 8
 		case op == 0xd0:
-			w.byte_()
+			w.imm1("imm.reftype")
 		case op == 0xd2:
 			w.uleb("imm.funcidx")
 		case op == 0xfc:
@@ -351,14 +363,14 @@ func (w *walker) instrs(untilEnd bool) {
 			case 0, 1, 2, 3, 4, 5, 6, 7:
 			case 8:
 				w.uleb("imm.dataidx")
-				w.byte_()
+				w.imm1("imm.reserved.memidx")
 			case 9:
 				w.uleb("imm.dataidx")
 			case 10:
-				w.byte_()
-				w.byte_()
+				w.imm1("imm.reserved.memidx")
+				w.imm1("imm.reserved.memidx")
 			case 11:
-				w.byte_()
+				w.imm1("imm.reserved.memidx")
 			case 12:
 				w.uleb("imm.elemidx")
 				w.uleb("imm.tableidx")
@@ -381,16 +393,16 @@ func (w *walker) instrs(untilEnd bool) {
 			case sub == 12 || sub == 13:
 				w.p += 16
 			case sub >= 21 && sub <= 34:
-				w.byte_()
+				w.imm1("imm.lane")
 			case sub >= 84 && sub <= 91:
 				w.uleb("imm.memarg.align")
 				w.uleb("imm.memarg.offset")
-				w.byte_()
+				w.imm1("imm.lane")
 			}
 		case op == 0xfe:
 			sub := w.uleb("imm.atomic.op")
 			if sub == 3 {
-				w.byte_()
+				w.imm1("imm.reserved.fence")
 			} else {
 				w.uleb("imm.memarg.align")
 				w.uleb("imm.memarg.offset")
@@ -431,10 +443,21 @@ func scanBody(body []byte) (ops []seenOp) {
 // ---------------------------------------------------------------------------------------------
 // deviations
 
-// the ten replacement values of the design; 8 and 9 depend on the original field.
-const nDevValues = 10
+// the ten replacement values of the design (8 and 9 depend on the original field) plus three more
+// non-canonical encodings: the original value padded to 2 and to 3 bytes, and `ff 7f`. Pairs of
+// deviations use the first ten only.
+const (
+	nDevValues  = 13
+	nPairValues = 10
+)
 
-var devNames = [nDevValues]string{"0", "1", "0x7f", "0x80", "2^16", "2^31-1", "2^31", "2^32-1", "overlong", "6-byte"}
+var devNames = [nDevValues]string{"0", "1", "0x7f", "0x80", "2^16", "2^31-1", "2^31", "2^32-1", "overlong", "6-byte", "pad2", "pad3", "ff7f"}
+
+// legalPadding: replacement #v is a legal re-encoding of the same value when the field is a LEB128 in
+// the specification (padding up to the width limit).
+func legalPadding(f field, v int) bool {
+	return !f.ByteImm && (v == 8 || v == 10 || v == 11)
+}
 
 func pad(orig []byte, signed bool, to int) []byte {
 	if len(orig) >= to {
@@ -482,6 +505,12 @@ func devBytes(b []byte, f field, v int) []byte {
 		r = pad(orig, f.Signed, max)
 	case 9:
 		r = pad(orig, f.Signed, 6)
+	case 10:
+		r = pad(orig, f.Signed, 2)
+	case 11:
+		r = pad(orig, f.Signed, 3)
+	case 12:
+		r = []byte{0xff, 0x7f}
 	}
 	if r == nil || string(r) == string(orig) {
 		return nil
